@@ -1029,6 +1029,41 @@ fn gen_scn(rng: &mut Rng) -> Scn {
         }
     }
 
+    // prefix ladder: host routes (/32) for every host of one network next to less specific decoy entries of
+    // lengths 25..31 around one of them, which point to a gateway nobody owns on another slot. With longest-prefix
+    // matching the host routes win and nothing changes for real hosts; a table that orders or merges entries of
+    // neighbouring prefix lengths wrongly (e.g. /31 against /32) sends a host's datagrams into the decoy.
+    let mut ladder = false;
+    if !class.starts_with("hostile") && rng.coin(1, 2) {
+        let r = rng.below(nr as u64) as usize;
+        let h = rng.below(hosts.len() as u64) as usize;
+        if let Some(e) = lpm(&routes[r], hosts[h].ip).cloned() {
+            let k = t.routers[r].len() as u32;
+            if k >= 2 && (e.slot as usize) < t.routers[r].len() {
+                ladder = true;
+                let net = hosts[h].net;
+                for x in hosts.iter().filter(|x| x.net == net) {
+                    if let Some(ex) = lpm(&routes[r], x.ip).cloned() {
+                        if ex.len < 32 {
+                            routes[r].push(RouteE { addr: x.ip, len: 32, gw: ex.gw, slot: ex.slot });
+                        }
+                    }
+                }
+                let other = (e.slot + 1 + rng.below(k as u64 - 1) as u32) % k;
+                for len in 25..=31u32 {
+                    if rng.coin(2, 3) {
+                        let addr = hosts[h].ip & mask_of(len);
+                        routes[r].retain(|x| !(x.addr == addr && x.len == len));
+                        routes[r].push(RouteE { addr, len, gw: net_prefix(t.routers[r][other as usize]) | (200 + len), slot: other });
+                    }
+                }
+            }
+        }
+    }
+    if ladder {
+        class.push_str("_ladder");
+    }
+
     // datagrams
     let nd = rng.range(1, 5) as usize;
     let mut dgrams: Vec<Dgram> = vec![];
